@@ -230,7 +230,7 @@ func init() {
 				}
 				graphql.VerifResetCounters()
 				vr := graphql.ValidateDocument(&schema, doc, nil)
-				work := sumCounters(2, 3, 4, 5, 6)
+				work := sumCounters(2, 3, 4, 5, 6, 8)
 				if !vr.IsValid {
 					fmt.Fprintln(os.Stderr, "infra: family document invalid:", vr.Errors[0].Message)
 					return 2
